@@ -1051,6 +1051,10 @@ class Grounded(EnvironmentFilter):
             else:
                 return self._rng.choice(self._bads)
 
+        def __reduce__(self):
+            #a copy draws its feedback anew from the seed (its generator is not carried over)
+            return (Grounded.GroundedFeedback,(self._goods,self._bads,self._argmax,self._seed))
+
         def __repr__(self) -> str:
             am = self._argmax
             return f"GroundedFeedback({try_else(lambda:minimize(am),str(am))})"
